@@ -902,4 +902,39 @@ theorem view_reload_cut (s : CVol) (t k : Nat) :
   | none => left; exact view_reload_nocut s h t k
   | some n => exact view_cut _ _ n (by simp [reload, h]) (by simp [reload, h]) (by simp [reload, h]) t k
 
+
+/-- volumes reachable from a fresh one are well-formed -/
+theorem wf_reachable (kind : Kind) (ttl : Nat × Nat) (pre : List (Nat × Op)) : WF (runOps (CVol.init kind ttl) pre) := by
+  obtain ⟨ext, exta, suf, hs⟩ := suf_run (suf_refl (wf_init kind ttl)) pre
+  refine ⟨hs.bound, hs.own, ?_, ?_⟩
+  · intro k
+    have hil : (runOps (CVol.init kind ttl) pre).ilog = suf := by rw [hs.hilog]; simp [CVol.init]
+    rw [hil, mget_loadFromIdx]
+    have hk := hs.key k
+    cases hl : lastFor suf k with
+    | none =>
+      rw [hl] at hk
+      have : (runOps (CVol.init kind ttl) pre).v.idx k = none := by rw [hk]; simp [CVol.init, Vol.init]
+      simp [memOf, this]
+    | some e =>
+      rw [hl] at hk
+      have hek := (lastFor_some hl).2
+      by_cases hn : e.size < 0
+      · obtain ⟨e', he', hn'⟩ := hk.2.2 hn
+        have : ¬ (0 ≤ e'.size) := by omega
+        simp [memOf, hn, he', this]
+      · have hi := hk.2.1 (by omega)
+        have h0 := hk.1
+        have : ¬ (e.off = 0 ∨ e.size < 0) := by omega
+        have hp : (0 : Int) ≤ e.size := by omega
+        simp only [memOf, Option.bind_some, this, if_false, hi, hp, if_true]
+        cases e; simp only at hek; rw [hek]
+  · rw [hs.hats, hs.hlog]; simp [CVol.init, Vol.init, hs.hlen]
+
+
+theorem runOps_append (s : CVol) (a b : List (Nat × Op)) : runOps s (a ++ b) = runOps (runOps s a) b := by
+  induction a generalizing s with
+  | nil => rfl
+  | cons o a ih => obtain ⟨t, op⟩ := o; simp only [List.cons_append, runOps]; exact ih _
+
 end SwV.Lemmas.C04
